@@ -18,6 +18,7 @@ structure SInv (h : List (SRec σ)) (c : SCache σ) : Prop where
   off : c.sizeOn = false → c.entries = [] ∧ c.tracked = 0
   held : c.sizeOn = true → (heldSize c.entries : Int) ≤ c.tracked
   bound : c.tracked ≤ maxLimit h
+  grow : c.tracked ≤ growBound h
 
 theorem maxLimit_nonneg (h : List (SRec σ)) : 0 ≤ maxLimit h := by
   induction h with
@@ -37,22 +38,40 @@ theorem maxLimit_resp (t : Int) (rm : Remedy) (m u : σ) (sel : List (σ × σ))
   simp only [maxLimit]
   split <;> omega
 
+theorem growBound_resp_mono (t : Int) (rm : Remedy) (m u : σ) (sel : List (σ × σ)) (r : Resp σ) (bl sz : Nat)
+    (o : POut σ) (h : List (SRec σ)) :
+    growBound h ≤ growBound (⟨t, .resp rm m u sel r bl sz, o⟩ :: h) ∧
+    rm.cfg.maxBytes ≤ growBound (⟨t, .resp rm m u sel r bl sz, o⟩ :: h) := by
+  simp only [growBound]
+  split <;> omega
+
+theorem growBound_req (t : Int) (rm : Remedy) (m u : σ) (sel : List (σ × σ)) (o : POut σ) (h : List (SRec σ)) :
+    growBound (⟨t, .req rm m u sel, o⟩ :: h) = growBound h := by simp [growBound]
+theorem growBound_fire (t : Int) (i : Nat) (o : POut σ) (h : List (SRec σ)) :
+    growBound (⟨t, .fire i, o⟩ :: h) = growBound h := by simp [growBound]
+theorem growBound_skip (t : Int) (d : Nat) (o : POut σ) (h : List (SRec σ)) :
+    growBound (⟨t, .skip d, o⟩ :: h) = growBound h := by simp [growBound]
+theorem growBound_adv (t : Int) (d : Nat) (o : POut σ) (h : List (SRec σ)) :
+    growBound (⟨t, .adv d, o⟩ :: h) = growBound h := by simp [growBound]
+
 theorem sinv_init (t0 : Int) : SInv ([] : List (SRec σ)) (Cache.init t0 false 0) := by
-  refine ⟨?_, ?_, ?_, ?_, ?_⟩
+  refine ⟨?_, ?_, ?_, ?_, ?_, ?_⟩
   · intro k e hf; simp [Cache.init, find?] at hf
   · intro r0 hr; cases hr
   · intro _; exact ⟨rfl, rfl⟩
   · intro h; simp [Cache.init] at h
   · simp [Cache.init, maxLimit]
+  · simp [Cache.init, growBound]
 
 theorem sinv_shrink {h : List (SRec σ)} {c c' : SCache σ} (r : SRec σ)
     (hinv : SInv h c) (hrt : r.t = c.now)
     (hent : ∀ k e, find? k c'.entries = some e → find? k c.entries = some e)
     (hnow : c.now ≤ c'.now) (hson : c'.sizeOn = c.sizeOn) (htr : c'.tracked ≤ c.tracked)
     (hoff : c.sizeOn = false → c'.entries = [] ∧ c'.tracked = 0)
-    (hheld : c.sizeOn = true → (heldSize c.entries : Int) ≤ c.tracked → (heldSize c'.entries : Int) ≤ c'.tracked) :
+    (hheld : c.sizeOn = true → (heldSize c.entries : Int) ≤ c.tracked → (heldSize c'.entries : Int) ≤ c'.tracked)
+    (hgrow : growBound h ≤ growBound (r :: h) ∨ c'.tracked ≤ growBound (r :: h)) :
     SInv (r :: h) c' := by
-  refine ⟨?_, ?_, ?_, ?_, ?_⟩
+  refine ⟨?_, ?_, ?_, ?_, ?_, ?_⟩
   · intro k e hf
     obtain ⟨r0, hm, hs⟩ := hinv.src k e (hent k e hf)
     exact ⟨r0, List.mem_cons_of_mem _ hm, hs⟩
@@ -63,6 +82,8 @@ theorem sinv_shrink {h : List (SRec σ)} {c c' : SCache σ} (r : SRec σ)
   · intro hx; rw [hson] at hx; exact hoff hx
   · intro hx; rw [hson] at hx; exact hheld hx (hinv.held hx)
   · have := hinv.bound; have := maxLimit_mono r h; omega
+  · have := hinv.grow
+    rcases hgrow with h1 | h1 <;> omega
 
 theorem shrink_clearKey_held (c : SCache σ) (k : SKey σ) (hon : c.sizeOn = true)
     (hh : (heldSize c.entries : Int) ≤ c.tracked) :
@@ -88,16 +109,19 @@ theorem clearAll_held (c : SCache σ) (l : List (Sleeper (SKey σ))) (hon : c.si
 
 theorem sstep_inv (c : SCache σ) (h : List (SRec σ)) (op : SOp σ) (hinv : SInv h c) :
     SInv (⟨c.now, op, (sstep c op).2⟩ :: h) (sstep c op).1 := by
-  have same : ∀ o, SInv (⟨c.now, op, o⟩ :: h) c := fun o =>
-    sinv_shrink ⟨c.now, op, o⟩ hinv rfl (fun _ _ x => x) (Int.le_refl _) rfl (Int.le_refl _) hinv.off (fun _ x => x)
+  have same : ∀ o, (growBound h ≤ growBound (⟨c.now, op, o⟩ :: h) ∨ c.tracked ≤ growBound (⟨c.now, op, o⟩ :: h)) →
+      SInv (⟨c.now, op, o⟩ :: h) c := fun o hg =>
+    sinv_shrink ⟨c.now, op, o⟩ hinv rfl (fun _ _ x => x) (Int.le_refl _) rfl (Int.le_refl _) hinv.off (fun _ x => x) hg
   cases op with
   | resp rm m u sel r bl sz =>
+    have hgr : ∀ o : POut σ, growBound h ≤ growBound (⟨c.now, .resp rm m u sel r bl sz, o⟩ :: h) :=
+      fun o => (growBound_resp_mono c.now rm m u sel r bl sz o h).1
     simp only [sstep]
     by_cases hbig : bl > rm.cfg.maxRec
-    · simp only [hbig, if_true]; exact same _
+    · simp only [hbig, if_true]; exact same _ (Or.inl (hgr _))
     · simp only [hbig, if_false]
       by_cases hhas : has c ⟨m, u, dots rm.n sel, sel⟩ = true
-      · simp only [hhas, if_true]; exact same _
+      · simp only [hhas, if_true]; exact same _ (Or.inl (hgr _))
       · simp only [hhas, Bool.false_eq_true, if_false]
         have hheld1 : (heldSize c.entries : Int) ≤ c.tracked := by
           cases hon : c.sizeOn with
@@ -105,7 +129,8 @@ theorem sstep_inv (c : SCache σ) (h : List (SRec σ)) (op : SOp σ) (hinv : SIn
           | true => exact hinv.held hon
         have hml := maxLimit_resp c.now rm m u sel r bl sz (POut.noop : POut σ) h
         have hmono := maxLimit_mono (⟨c.now, .resp rm m u sel r bl sz, POut.noop⟩ : SRec σ) h
-        refine ⟨?_, ?_, ?_, ?_, ?_⟩
+        have hgm := growBound_resp_mono c.now rm m u sel r bl sz (POut.noop : POut σ) h
+        refine ⟨?_, ?_, ?_, ?_, ?_, ?_⟩
         · intro k e hf
           rcases find?_set hf with ⟨hk, he, _⟩ | ⟨_, _, hb⟩ | ⟨_, hb⟩
           · refine ⟨_, List.mem_cons_self, rm, m, u, sel, r, bl, sz, rfl, hk, by omega, ?_, ?_⟩
@@ -140,16 +165,28 @@ theorem sstep_inv (c : SCache σ) (h : List (SRec σ)) (op : SOp σ) (hinv : SIn
               show c.tracked + (sz : Nat) ≤ _
               omega
             · rw [htr]; show c.tracked ≤ _; omega
+        · have hg := hinv.grow
+          rcases set_cases ({ c with sizeOn := true, max := rm.cfg.maxBytes } : SCache σ) ⟨m, u, dots rm.n sel, sel⟩
+            ⟨r, c.now⟩ rm.cfg.ttl sz with ⟨_, h1⟩ | ⟨hroom, _, _, _, _, hcase⟩
+          · rw [h1]; show c.tracked ≤ _; omega
+          · rcases hcase with ⟨_, _, htr⟩ | ⟨_, _, htr⟩
+            · rw [htr]
+              have : ¬ (c.tracked + (sz : Nat) > rm.cfg.maxBytes) := fun x => hroom ⟨rfl, x⟩
+              simp only [if_true]
+              show c.tracked + (sz : Nat) ≤ _
+              omega
+            · rw [htr]; show c.tracked ≤ _; omega
   | req rm m u sel =>
     simp only [sstep]
     cases get c ⟨m, u, dots rm.n sel, sel⟩ with
-    | none => exact same _
-    | some s => exact same _
+    | none => exact same _ (Or.inl (by rw [growBound_req]; exact Int.le_refl _))
+    | some s => exact same _ (Or.inl (by rw [growBound_req]; exact Int.le_refl _))
   | fire i =>
     simp only [sstep]
     refine sinv_shrink _ hinv rfl (fun _ _ x => find?_fire x) (by rw [fire_now]; exact Int.le_refl _)
       (fire_sizeOn c i) ?_
       (fun hx => ⟨fire_entries_nil i (hinv.off hx).1, by rw [fire_tracked_off i hx]; exact (hinv.off hx).2⟩) ?_
+      (Or.inl (by rw [growBound_fire]; exact Int.le_refl _))
     · rcases fire_cases c i with h1 | h1 | ⟨s, _, _, h1⟩
       · rw [h1]; exact Int.le_refl _
       · rw [h1]; exact Int.le_refl _
@@ -162,14 +199,14 @@ theorem sstep_inv (c : SCache σ) (h : List (SRec σ)) (op : SOp σ) (hinv : SIn
   | skip d =>
     simp only [sstep]
     exact sinv_shrink _ hinv rfl (fun _ _ x => x) (by simp only [skip]; omega) rfl (Int.le_refl _) hinv.off
-      (fun _ x => x)
+      (fun _ x => x) (Or.inl (by rw [growBound_skip]; exact Int.le_refl _))
   | adv d =>
     simp only [sstep]
     exact sinv_shrink _ hinv rfl (fun _ _ x => find?_adv x) (by rw [adv_now]; omega)
       (adv_sizeOn c d) (clearAll_tracked_le c _)
       (fun hx => ⟨adv_entries_nil d (hinv.off hx).1, by rw [adv_tracked_off d hx]; exact (hinv.off hx).2⟩)
-      (fun hon hh => clearAll_held c _ hon hh)
-  | probe => simp only [sstep]; exact same _
+      (fun hon hh => clearAll_held c _ hon hh) (Or.inl (by rw [growBound_adv]; exact Int.le_refl _))
+  | probe => simp only [sstep]; exact same _ (Or.inr (by simp [growBound]))
 
 theorem sstep_recOk (c : SCache σ) (h : List (SRec σ)) (op : SOp σ) (hinv : SInv h c) :
     sRecOk false ⟨c.now, op, (sstep c op).2⟩ h = true := by
@@ -208,11 +245,13 @@ theorem sstep_recOk (c : SCache σ) (h : List (SRec σ)) (op : SOp σ) (hinv : S
   | probe =>
     simp only [sstep, sRecOk]
     have hb := hinv.bound
+    have hg := hinv.grow
     cases hon : c.sizeOn with
     | false =>
       obtain ⟨he, ht⟩ := hinv.off hon
       rw [he, ht]
-      simp [heldSize]; exact maxLimit_nonneg h
+      rw [ht] at hg
+      simp [heldSize]; exact ⟨maxLimit_nonneg h, hg⟩
     | true =>
       have h1 := hinv.held hon
       simp; omega
